@@ -163,3 +163,19 @@ Proof.
   exists [mkP (1,0) [10] [2] [0;1]]. split; [|reflexivity]. split; [|exact I].
   split; [simpl; auto|]. split; [simpl; auto|]. exists 10. split; [simpl; auto|]. split; [simpl; auto|]. vm_compute. reflexivity.
 Qed.
+
+(* model_passes_checker is not vacuous: on ex1 the model's record passes, the same record with one delivery list
+   emptied is rejected by clause 1 (routing), and a started-but-rejected record by clauses 4 and 5 *)
+From Verif Require Import C09.Harness C09.Clauses.
+Example ex1_model_obs_passes : violated_clauses (w_of_cfg ex1, model_obs [] ex1) = [].
+Proof. vm_compute. reflexivity. Qed.
+Example ex1_checker_rejects :
+  match model_obs [] ex1 with
+  | (v, (cls, (det, (crt, (std, (del, rest)))))) =>
+      violated_clauses (w_of_cfg ex1, (v, (cls, (det, (crt, (std, (map (fun d => (fst d, [])) del, rest))))))) = [1]
+  end /\
+  match model_obs [] ex_cyc with
+  | (v, (cls, (det, (crt, (std, rest))))) =>
+      violated_clauses (w_of_cfg ex_cyc, (v, (cls, (det, (crt, ([(2, (0, (0, 0)))], rest)))))) = [4; 5]
+  end.
+Proof. vm_compute. split; reflexivity. Qed.
